@@ -12,6 +12,8 @@
 //   std::string check();              invariants + full comparison; "" or violation message
 //   std::string canon();              every field the implementation branches on + the observable contents
 #pragma once
+#include <poll.h>
+#include <signal.h>
 #include <sys/mman.h>
 #include <sys/wait.h>
 #include <unistd.h>
@@ -197,14 +199,23 @@ inline int main_impl(int argc, char** argv, const char* harness) {
       _exit(0);
     }
     close(pfd[1]);
-    std::string js; char buf[65536]; ssize_t n; while ((n = read(pfd[0], buf, sizeof buf)) > 0) js.append(buf, n); close(pfd[0]);
+    // an operation that never returns (a loop over a corrupted list, a lost wake-up) must not hang the driver: the child gets
+    // its time share plus a grace period, then it is killed and whatever it was executing is reported
+    std::string js; char buf[65536]; bool hung = false; double kill_at = now_s() + o.budget_s + 30;
+    for (;;) {
+      struct pollfd pf = {pfd[0], POLLIN, 0}; int pr = poll(&pf, 1, 500);
+      if (pr > 0) { ssize_t n = read(pfd[0], buf, sizeof buf); if (n > 0) js.append(buf, n); else break; }
+      else if (now_s() > kill_at) { hung = true; kill(pid, SIGKILL); break; }
+    }
+    close(pfd[0]);
     int st = 0; waitpid(pid, &st, 0);
     SysResult r; r.system = e.name;
+    if (hung) js.clear();
     if (js.empty()) {
       // crashed: the in-flight histories are the suspects; report each (the replay tool pins it down)
       r.complete = false;
       for (int s = 0; s < 64; s++) if (g_inflight[s].len > 0) {
-        Violation v; v.system = e.name; v.message = "crash or sanitizer abort (exit status " + std::to_string(st) + ") while executing this history";
+        Violation v; v.system = e.name; v.message = hung ? "an operation of this history did not return (hang: the system was killed after its time share plus 30 s)" : "crash or sanitizer abort (exit status " + std::to_string(st) + ") while executing this history";
         for (int k = 0; k < g_inflight[s].len; k++) v.hist.push_back((uint8_t)g_inflight[s].ops[k]);
         r.violations.push_back(v);
       }
